@@ -118,7 +118,8 @@ def wfDumpOp : Handler := fun j => do
     | _ => 120
   let es := (exprNodes t).take cap
   let st := pairStats es
-  pure (Json.mkObj [("wf_dump", Json.bool (wfDump t)),
+  pure (Json.mkObj [("wf_dump", Json.bool (wfDump t)), ("conforms", Json.bool (conforms (schemaOf t) t)),
+    ("schema_types", Json.num ((schemaOf t).length : Nat)),
     ("witness", match wfDumpWitness t with
       | some w => Json.str (String.ofList w)
       | none => Json.null),
